@@ -940,6 +940,9 @@ void make_items(const Options& o, std::vector<Item>& items)
     // the list starts empty
     add(0, {early_reader(), pusher({{PUSH_F, 10}}), eraser(0)}, 2, 3);
     add(0, {early_reader(), pusher({{PUSH_B, 10}}), eraser(0), reaper(1)}, 2, 3);
+    // scale: long runs of released records behind a handle that is still held (thresholds in the log walk)
+    add(5, {pauser(1), erase_all(5), reaper(2)}, 1, 2);
+    add(2, {pauser(1), reaper(7)}, 1, 2);
     if (thorough) {
         add(3, {pauser(2), eraser(1), reaper(1), reaper(1)}, 2, 2);
         add(2, {pauser(1), pauser(1), erase_all(2), reaper(1)}, 2, 2);
@@ -967,6 +970,9 @@ void make_items(const Options& o, std::vector<Item>& items)
     add(0, {early_reader(), pusher({{PUSH_F, 10}}), eraser(0)}, 2, 3);
     add(0, {early_reader(), pusher({{PUSH_B, 10}, {PUSH_B, 11}}), eraser(0), reaper(1)}, 2, 3);
     add(0, {early_reader(true), pusher({{PUSH_F, 10}}), eraser(0), reaper(1)}, 2, 3);
+    // scale: long runs of released records behind a handle that is still held
+    add(5, {pauser(2), erase_all(5), reaper(2)}, 1, 2);
+    add(2, {pauser(1), reaper(7)}, 1, 2);
     if (thorough) {
         // systematic: traverser kind x eraser kind x reaper kind x list size
         for (int n = 2; n <= 3; n++) {
